@@ -10,6 +10,7 @@ var props = map[string]PropSpec{
 			{Name: "solver.VP_C01_lit_arith", Kind: "L", Bounds: "every int32 with 0 < |i| < 2^30 (32-bit bit-vectors, no other bound)", Require: []string{"lit_arith"}},
 			{Name: "solver.VP_C01_cnf_slice", Kind: "E", Params: map[string]int{"n": 2, "m": 3, "k": 2, "cert": 1, "smalldb": 1}, Bounds: "n<=2 variables, m<=3 clauses, k<=2 literals each, literals symbolic in [-n,n]\\{0}; Certified on/off; learnt-clause limit default/1", Require: []string{"sat", "unsat", "parse-unsat"}},
 			{Name: "solver.VP_C01_cnf_slice", Kind: "E", Params: map[string]int{"n": 2, "m": 2, "k": 3}, Bounds: "n<=2, m<=2 clauses, k<=3 literals each (duplicate literals and tautologies inside ternary clauses)", Require: []string{"sat", "unsat", "parse-unsat"}},
+			{Name: "solver.VP_C01_cnf_skeleton", Kind: "E", Params: map[string]int{"maxsigns": 10, "smalldb": 1}, Bounds: "4 fixed clause skeletons over 4-6 variables (pigeon-hole 3/2, implication cycle, 3-SAT with 8 clauses, xor chain) whose first 10 literal signs are symbolic; learnt-clause limit default/1; these need conflict analysis, backjumping and clause learning", Require: []string{"sat", "unsat", "learned"}},
 			{Name: "solver.VP_C01_cnf_dimacs", Kind: "E", Params: map[string]int{"n": 2, "m": 1, "k": 2}, Bounds: "DIMACS stream with symbolic sign/digit/separator bytes, <=1 clause of <=2 literals, 0..1 unused declared variables, comments, CRLF, missing final newline: ParseCNF -> New -> Solve", Require: []string{"sat", "unsat"}},
 			{Name: "solver.VP_C01_cnf_dimacs", Kind: "E", Params: map[string]int{"n": 2, "m": 2, "k": 2, "layout": 0}, Bounds: "DIMACS stream, <=2 clauses of <=2 literals, plain layout", Require: []string{"sat", "unsat"}},
 		},
@@ -18,6 +19,9 @@ var props = map[string]PropSpec{
 			{Name: "solver.VP_C01_cnf_slice", Kind: "E", Params: map[string]int{"n": 2, "m": 4, "k": 2, "cert": 1, "smalldb": 1}, Bounds: "n<=2, m<=4, k<=2", Require: []string{"sat", "unsat", "parse-unsat"}},
 			{Name: "solver.VP_C01_cnf_slice", Kind: "E", Params: map[string]int{"n": 3, "m": 3, "k": 2, "cert": 1, "smalldb": 1}, Bounds: "n<=3, m<=3, k<=2", Require: []string{"sat", "unsat", "parse-unsat"}},
 			{Name: "solver.VP_C01_cnf_slice", Kind: "E", Params: map[string]int{"n": 3, "m": 2, "k": 3, "cert": 1, "smalldb": 1}, Bounds: "n<=3, m<=2, k<=3", Require: []string{"sat", "unsat", "parse-unsat"}},
+			{Name: "solver.VP_C01_cnf_skeleton", Kind: "E", Params: map[string]int{"maxsigns": 14, "smalldb": 1}, Bounds: "skeletons with 14 symbolic signs", Require: []string{"sat", "unsat", "learned"}},
+			{Name: "solver.VP_C01_cnf_skeleton", Kind: "E", Params: map[string]int{"maxsigns": 6, "nskel": 2, "steer": 1}, Bounds: "first two skeletons, 6 symbolic signs, every initial phase assignment", Require: []string{"sat", "unsat", "learned"}},
+			{Name: "solver.VP_C01_cnf_dimacs", Kind: "E", Params: map[string]int{"n": 2, "m": 2, "k": 1}, Bounds: "DIMACS stream, <=2 clauses of <=1 literal, all layouts", Require: []string{"sat", "unsat"}},
 		},
 		Outside: "formulas with more variables/clauses than the stated bounds; restart and clause-deletion behaviour that needs more than a handful of conflicts",
 	},
@@ -79,10 +83,12 @@ var props = map[string]PropSpec{
 		Quick: []HarnessRun{
 			{Name: "solver.VP_C06_cert_e2e", Kind: "E", Params: map[string]int{"n": 2, "m": 3, "k": 2, "smalldb": 1}, Bounds: "n<=2, <=3 clauses x <=2 symbolic literals; Certified with buffered CertChan; learnt-clause limit default/1; uncertified twin on a copy; certificate replayed by an independent RUP procedure", Require: []string{"sat", "unsat", "line"}},
 			{Name: "solver.VP_C06_cert_e2e", Kind: "E", Params: map[string]int{"n": 3, "m": 2, "k": 3, "steer": 1}, Bounds: "n<=3, <=2 clauses x <=3 literals, every initial phase assignment", Require: []string{"sat", "unsat"}},
+			{Name: "solver.VP_C01_cnf_skeleton", Kind: "E", Params: map[string]int{"maxsigns": 10, "smalldb": 1, "cert": 1}, Bounds: "4 skeletons over 4-6 variables with 10 symbolic signs (certificates with learned clauses, deletion with limit 1), replayed by the independent RUP procedure", Require: []string{"sat", "unsat", "learned", "line"}},
 		},
 		Thorough: []HarnessRun{
 			{Name: "solver.VP_C06_cert_e2e", Kind: "E", Params: map[string]int{"n": 3, "m": 3, "k": 2, "smalldb": 1}, Bounds: "n<=3, <=3 clauses x <=2 literals", Require: []string{"sat", "unsat", "line"}},
 			{Name: "solver.VP_C06_cert_e2e", Kind: "E", Params: map[string]int{"n": 2, "m": 4, "k": 2, "smalldb": 1, "steer": 1}, Bounds: "n<=2, <=4 clauses, all phases", Require: []string{"sat", "unsat", "line"}},
+			{Name: "solver.VP_C01_cnf_skeleton", Kind: "E", Params: map[string]int{"maxsigns": 14, "smalldb": 1, "cert": 1}, Bounds: "skeletons with 14 symbolic signs, certified", Require: []string{"sat", "unsat", "learned", "line"}},
 		},
 		Outside: "certificates written to stdout (CertChan nil) are covered through C19 only; formulas beyond the bounds; certificates with clause deletion on larger instances",
 	},
@@ -219,6 +225,8 @@ var props = map[string]PropSpec{
 			{Name: "solver.VP_C02_pb_units", Kind: "E", Params: map[string]int{"n": 3, "W": 2, "D": 5, "cp": 1}, Bounds: "C02 pb_units inputs with CuttingPlanes symbolic (on/off), in-situ monitor: every learned constraint and derived unit is implied by the problem (symbolic assignment); lemma preconditions asserted at divideBy", Require: []string{"sat", "unsat", "cp-unit"}},
 			{Name: "solver.VP_C01_cnf_slice", Kind: "E", Params: map[string]int{"n": 3, "m": 2, "k": 2, "cp": 1, "amo": 1}, Bounds: "CNF n<=3, <=2 clauses x <=2 literals, CuttingPlanes on/off x DetectAtMostOne on/off", Require: []string{"sat", "unsat"}},
 			{Name: "solver.VP_C03_optim_pb", Kind: "E", Params: map[string]int{"n": 2, "k": 2, "kc": 2, "W": 2, "PW": 2, "cp": 1}, Bounds: "C03 optim_pb inputs (n=2) with CuttingPlanes on/off: same optimum as the reference", Require: []string{"sat", "unsat"}},
+			{Name: "solver.VP_C14_pb_skeleton", Kind: "E", Params: map[string]int{"maxsigns": 8, "cp": 1}, Bounds: "3 PB/cardinality skeletons over 4-6 variables (pigeon-hole as cardinality constraints, weighted constraints, parity) with 8 symbolic signs, CuttingPlanes on/off, learned-constraint monitor", Require: []string{"sat", "unsat", "cp-unit"}},
+			{Name: "solver.VP_C01_cnf_skeleton", Kind: "E", Params: map[string]int{"maxsigns": 8, "cp": 1, "amo": 1}, Bounds: "4 CNF skeletons with 8 symbolic signs, CuttingPlanes on/off x DetectAtMostOne on/off", Require: []string{"sat", "unsat"}},
 		},
 		Thorough: []HarnessRun{
 			{Name: "solver.VP_C14_cp_clash", Kind: "L", Params: map[string]int{"n": 4}, Bounds: "clash over 4 variables", Require: []string{"clash"}},
@@ -227,6 +235,8 @@ var props = map[string]PropSpec{
 			{Name: "solver.VP_C02_card_units", Kind: "E", Params: map[string]int{"n": 4, "cp": 1, "amo": 1}, Bounds: "card_units with 4 variables, cp x amo", Require: []string{"sat"}},
 			{Name: "solver.VP_C01_cnf_slice", Kind: "E", Params: map[string]int{"n": 3, "m": 3, "k": 2, "cp": 1, "amo": 1}, Bounds: "CNF n<=3, <=3 clauses", Require: []string{"sat", "unsat"}},
 			{Name: "solver.VP_C03_optim_pb", Kind: "E", Params: map[string]int{"n": 3, "k": 3, "kc": 2, "W": 2, "PW": 2, "cp": 1}, Bounds: "optim_pb n=3 with cp", Require: []string{"sat", "unsat"}},
+			{Name: "solver.VP_C14_pb_skeleton", Kind: "E", Params: map[string]int{"maxsigns": 11, "cp": 1, "dshift": 1}, Bounds: "PB skeletons with 11 symbolic signs and degrees shifted by 0/1", Require: []string{"sat", "unsat", "cp-unit"}},
+			{Name: "solver.VP_C01_cnf_skeleton", Kind: "E", Params: map[string]int{"maxsigns": 12, "cp": 1, "amo": 1}, Bounds: "CNF skeletons with 12 symbolic signs, cp x amo", Require: []string{"sat", "unsat"}},
 		},
 		Assumptions: []string{"the arithmetic lemmas assume the degree stays >= 1 after weakening; that precondition is asserted in situ at every divideBy call of the end-to-end runs"},
 		Outside:     "Luby restarts and PB clause deletion (need hundreds of conflicts); problems beyond 3-4 variables",
@@ -249,12 +259,13 @@ var props = map[string]PropSpec{
 		Quick: []HarnessRun{
 			{Name: "solver.VP_C18_print_roundtrip", Kind: "E", Params: map[string]int{"n": 2, "m": 2, "k": 2, "W": 2, "D": 3}, Bounds: "CNF (<=2 clauses x <=2 literals), cardinality and PB problems over 2 variables after parse-time simplification, with and without cost function; routes Problem.CNF->ParseCNF, Problem.PBString->ParseOPB, Solver.PBString->ParseOPB before and after Solve; models and costs compared for a symbolic assignment", Require: []string{"cnf", "opb", "solver-opb", "solver-opb-after-solve"}},
 			{Name: "solver.VP_C18_print_roundtrip", Kind: "E", Params: map[string]int{"n": 3, "m": 1, "k": 2, "W": 2, "D": 4, "CW": 1}, Bounds: "3 variables, <=1 clause, coefficients in [1,2]", Require: []string{"opb", "solver-opb"}},
+			{Name: "explain.VP_C18_explain_cnf", Kind: "E", Params: map[string]int{"n": 2, "m": 3, "k": 2}, Bounds: "explain.Problem.CNF() of problems with <=3 clauses x <=2 literals re-read by explain.ParseCNF", Require: []string{"explain-cnf"}},
 		},
 		Thorough: []HarnessRun{
 			{Name: "solver.VP_C18_print_roundtrip", Kind: "E", Params: map[string]int{"n": 3, "m": 2, "k": 2, "W": 3, "D": 6}, Bounds: "3 variables, <=2 clauses, coefficients in [1,3]", Require: []string{"cnf", "opb", "solver-opb", "solver-opb-after-solve"}},
 		},
 		Assumptions: []string{"a variable the rendering no longer mentions is read as unconstrained; a smaller NbVars alone is not a violation (OPB has no variable-count field that ParseOPB reads)"},
-		Outside:     "explain.Problem.CNF (exercised through C07/C08 inputs only); negative cost coefficients; more than 3 variables",
+		Outside:     "negative cost coefficients (known finding C03-negative-cost-coefficients); more than 3 variables",
 	},
 	"C16": {
 		ID: "C16",
